@@ -40,6 +40,12 @@ CHECKS = {
                 text="Complete enumeration of Z in [-3,125] x the 13 group line macros (energies) and 4 group macros (rates) in both configurations; group "
                      "membership is derived from macro names and the published Siegbahn aliases, member values come from the public single-line API.",
                 note="Differential oracle: an error common to a member line and its group is invisible here (C01 decides members). KO/KP pseudo members: two readings accepted."),
+    "C12": dict(level="exploration", engine="ENUM", ref="4/C12",
+                technique="exhaustive evaluation of the real closed-form functions on a complete (E, theta, phi) grid against mutual identities and converged quadrature",
+                text="All seven closed-form functions are evaluated on the complete grid (61/241 energies over 12 decades x 33 theta x 8..17 phi) and every identity "
+                     "named in the property is checked at every grid point; the total is compared with a composite Gauss-Legendre quadrature of the library's "
+                     "own differential form whose convergence is verified in the run.",
+                note="The continuum is represented by the grid, not covered; tolerances 1e-8 (quadrature), 1e-10..1e-12 (algebraic identities)."),
 }
 NOT_YET = {}
 ALL = ["C%02d" % i for i in range(1, 21)]
